@@ -9,8 +9,11 @@ import ASV.Proofs.Parser.Grammar
 import ASV.Proofs.Parser.Tokeniser
 import ASV.Proofs.Parser.RulePP
 import ASV.Proofs.Parser.Alias
+import ASV.Proofs.Parser.SubstRule
+import ASV.Proofs.Parser.FuelTop
+import ASV.Proofs.Parser.Reprint11
 namespace ASV.C02
-open ASV ASV.Rules ASV.Parser ASV.Grammar ASV.Layout
+open ASV ASV.Rules ASV.Parser ASV.Grammar ASV.Layout ASV.Reprint
 
 /-! ### the regenerated tables still say what the model assumes -/
 
@@ -174,9 +177,7 @@ example : shapeOr (.or (.one (.id false "a")) (.one (.and (.id false "b") (.one 
 example : okTop (.or (.one (.id false "a")) (.one (.and (.id false "b") (.one (.id true "c"))))) = true := by
   decide +kernel
 
-/-! ### DEFINE aliases behave as textual substitution (thm 4, `_partial`: the step lemma and the
-    invariant are proved; that every parser function therefore returns on `(A, ts)` what it returns
-    on `(∅, subst A ts)` is left to the correspondence, whose oracle is exactly that substitution) -/
+/-! ### DEFINE aliases behave as textual substitution (thm 4) -/
 
 /-- thm 4 core: with a flat alias table (no definition mentions an alias, none is empty), `_consume`
     hands out the head of the *substituted* stream (`view`: current token, then the rest with every
@@ -194,7 +195,110 @@ theorem aliases_stay_flat (cfg : Cfg) (rules rules' : List Rule) (aliases aliase
     (h : parseTokens cfg rules aliases toks = .ok (rules', aliases')) (hf : Flat aliases) : Flat aliases' :=
   parseTokens_flat h hf
 
-example : Flat [] := ⟨by simp, by simp⟩
+/-- thm 4, lifted to the condition parser: with a flat alias table, for every fuel, nesting flags and
+    state, `_parse_conditions` returns on the aliased state exactly what it returns on the
+    alias-free state whose unread input is the substituted stream (`strip s`: current token, then
+    `subst A rest`) — same conditions or same error, and the resulting states correspond again. -/
+theorem alias_is_substitution_conditions (fuel : Nat) (allowCds isGroup : Bool) (s : PS) (hf : Flat s.aliases) :
+    parseConditions fuel allowCds isGroup (strip s) = mapS (parseConditions fuel allowCds isGroup s) :=
+  (blockSim fuel).conds allowCds isGroup s hf
+
+/-- thm 4 (`alias_is_substitution`) for a whole rule: with a flat alias table (guaranteed by
+    `aliases_stay_flat`), for every fuel, `_parse_rule` on the aliased state and on the substituted
+    alias-free state give the same error, or rules with the same name, category, distances,
+    conditions, extenders, superiors, related profiles and examples (`RuleRel`), and corresponding
+    states.  Excluded from the comparison is only the free text (DESCRIPTION words, EXAMPLE compound
+    names): the code skips it without alias replacement.  An alias right after `RULE` is rejected on
+    both sides (the `aliased` flag travels with the substituted tokens). -/
+theorem alias_is_substitution (fuel : Nat) (cfg : Cfg) (s : PS) (hf : Flat s.aliases) :
+    RelS RuleRel (parseRuleWith fuel cfg (strip s)) (parseRuleWith fuel cfg s) :=
+  parseRuleWith_rel hf fuel cfg
+
+/-- … and with the fuel the model computes on each side for itself (`PS.budget`), by
+    `fuel_irrelevant` and `fuel_enough_rule` -/
+theorem alias_is_substitution_rule (cfg : Cfg) (s : PS) (hf : Flat s.aliases) :
+    RelS RuleRel (parseRule cfg (strip s)) (parseRule cfg s) :=
+  parseRule_rel hf cfg
+
+/-- what `strip` is on the state a `Parser` starts a rule in: no aliases, input `t :: subst A rest` -/
+example (t : Tok) (rest : List Tok) (A : Aliases) (rules : List Rule) :
+    strip { cur := some t, rest := rest, aliases := A, rules := rules } =
+      { cur := some t, rest := subst A rest, aliases := [], rules := rules } := rfl
+
+example : Flat [] := ⟨by simp, by simp, by simp⟩
+
+/-! ### the regenerated text parses back (thm 7) -/
+
+/-- thm 7 (`reparse_printed`) for every list `L` of `or`-operands the parser can return (a CONDITIONS
+    section, the inside of a group or of `cds(...)`: documented shape `shapeOks`, no repeated operand,
+    profile names that are identifiers — exactly what `conditions_accepts_only_grammar` guarantees
+    for parser output): the text `__str__` prints for it (after the D17/D26 print repairs)
+    is tokenised without error, and the tokens are parsed — in any alias-free state, followed by
+    anything a section may be followed by — into `normL L`: the same operands up to the transparent
+    single-operand group the printer drops (`normC`), `minimum` options sorted; `normL L` has the
+    same meaning at every gene of every environment (C01 `sem`), prints to the same text, and is
+    again legal. -/
+theorem reparse_printed (L : List Cond) (allowCds : Bool) (hne : L ≠ []) (hn : NamesOkL L)
+    (hs : shapeOks allowCds L = true) (hr : noRepeats L = true) :
+    ∃ toks, tokenise (String.ofList (printJoin orSep L)) = .ok toks ∧
+      (∀ (fuel : Nat) (isGroup : Bool) (k consumed : List Tok) (rules : List Rule), NotBinop k →
+        (∀ c r, endCheck isGroup (ofStream k c r) = .ok ()) → 3 * toks.length + 2 ≤ fuel →
+        parseConditions fuel allowCds isGroup (ofStream (toks ++ k) consumed rules) =
+          .ok (normL L, ofStream k (toks.reverse ++ consumed) rules)) ∧
+      (∀ e g, semAny e g (normL L) = semAny e g L) ∧
+      printConds (normL L) = printConds L ∧ shapeOks allowCds (normL L) = true ∧ noRepeats (normL L) = true :=
+  reparse_operands L allowCds hne hn hs hr
+
+/-- thm 7 for a whole rule with the mandatory sections (no DESCRIPTION/EXAMPLE text), distances in
+    whole kilobases (the regenerated text prints `cutoff // 1000`; the fresh parser has multipliers 1):
+    `reconstruct_rule_text()` is tokenised without error and `_parse_rule` on the tokens returns a
+    rule with the same name, category, cutoff and neighbourhood, whose conditions have the same
+    meaning at every gene of every environment.  Hypotheses = what `accepted_rules_wellformed` /
+    `conditions_accepts_only_grammar` give for a parsed rule, plus: name, category and profile names
+    are identifiers for the tokeniser (they came out of it). -/
+theorem reparse_printed_rule (cfg : Cfg) (r : Rule) (L : List Cond) (rules : List Rule)
+    (hc : r.conditions = .group false L) (hne : L ≠ []) (hn : NamesOkL L) (hs : shapeOks true L = true)
+    (hr : noRepeats L = true) (hd : hasDupStr (printConds L) = false)
+    (hname : classify r.name = .identifier) (hcat : classify r.category = .identifier)
+    (hcats : cfg.cats.contains r.category = true) (hpos : positive r.conditions = true)
+    (hdesc : r.description = []) (hex : r.examples = [])
+    (hkc : r.cutoff % 1000 = 0) (hkn : r.neighbourhood % 1000 = 0) :
+    ∃ toks r', tokenise r.reconstruct = .ok toks ∧
+      parseRule cfg (ofStream toks [] rules) = .ok (r', ofStream [] toks.reverse rules) ∧
+      r'.name = r.name ∧ r'.category = r.category ∧ r'.cutoff = r.cutoff ∧ r'.neighbourhood = r.neighbourhood ∧
+      ∀ e g, sem e g r'.conditions = sem e g r.conditions :=
+  reparse_rule cfg r L rules hc hne hn hs hr hd hname hcat hcats hpos hdesc hex hkc hkn
+
+/-- D17 and D26 on the model: `not (not a)` and `cds((a))` print with their parentheses -/
+example : printCond (.group true [.group true [.single false "a"]]) = "not (not a)" := by decide +kernel
+example : printCond (.cds false [.group false [.single false "a"]]) = "cds((a))" := by decide +kernel
+
+/-! ### the model's fuel is never exhausted (the `fuel` error value is unreachable) -/
+
+/-- more fuel changes nothing but an "out of fuel": if `parseRuleWith n` returns anything else, so
+    does every `m ≥ n` (the same holds for every fuel-taking function: `blockMono`, `…_mono`) -/
+theorem fuel_irrelevant (n m : Nat) (h : n ≤ m) (cfg : Cfg) (s : PS)
+    (hne : parseRuleWith n cfg s ≠ .error .fuel) : parseRuleWith m cfg s = parseRuleWith n cfg s :=
+  (parseRuleWith_mono h cfg s).eq_of_ne hne
+
+/-- every recursive call consumes a token first: on an alias-free state with `p` unread tokens the
+    condition parser never runs out of fuel `3p + 3` (`blockNF` has the bound of each of the seven
+    mutually recursive functions) … -/
+theorem fuel_enough_conditions (n : Nat) (allowCds isGroup : Bool) (s : PS) (ha : s.aliases = [])
+    (hn : 3 * s.pending + 3 ≤ n) : parseConditions n allowCds isGroup s ≠ .error .fuel :=
+  (blockNF n).conds allowCds isGroup s s.pending ⟨ha, Nat.le_refl _⟩ hn
+
+/-- … nor does a whole rule on any state with a flat alias table with the fuel `_parse_rule`'s
+    model computes (`PS.budget` ≥ 3 · tokens after substitution + 3) … -/
+theorem fuel_enough_rule (cfg : Cfg) (s : PS) (hf : Flat s.aliases) : parseRule cfg s ≠ .error .fuel :=
+  parseRule_nf hf
+
+/-- … and so (3): `create_rules` never returns the model's `fuel` error, for any files, signature
+    names, categories and multipliers.  (Main loop: every iteration consumes a `RULE` or `DEFINE`
+    token, and alias definitions contain none.) -/
+theorem fuel_never_exhausted (cfg : Cfg) (files : List String) :
+    createRules cfg files [] [] ≠ .error .fuel :=
+  createRules_nf cfg files [] [] ⟨by simp, by simp, by simp⟩
 
 /-! ### non-vacuity: each listed class of ill-formed input on a concrete text -/
 
